@@ -97,12 +97,13 @@ theorem stackmap_builder_program (ops : List (Nat × Bool)) :
   obtain ⟨h1, _, h3⟩ := binv_runBuilder ops
   exact ⟨h1, fun i hi => h3 i (by omega)⟩
 
-/-- `buildLoadFunc`: with `NoPreempt` (what both of sonic's loaders pass) every pc of the text
-    is an unsafe point (-2) and has stack-map index 0, for every text size -/
+/-- `buildLoadFunc` as the source has it now (`loadFuncFacts` regenerated): with `NoPreempt` (what both
+    of sonic's loaders pass) every pc of the text is an unsafe point (-2) and has stack-map index 0,
+    for every text size -/
 theorem loadfunc_tables_cover_text (pcsp : List Pcvalue) (textSize pc : Nat) (a l : Option (List Bool))
     (h0 : 0 < textSize) (h1 : textSize < 4294967296) (hpc : pc < textSize) :
-    let f := buildLoadFunc true pcsp textSize a l
-    (∃ b, marshalPcdata f.unsafePoint = some b ∧ decodePcValue b pc = some (-2)) ∧
+    let f := buildLoadFunc loadFuncFacts true pcsp textSize a l
+    (∃ t b, f.unsafePoint = some t ∧ marshalPcdata t = some b ∧ decodePcValue b pc = some (-2)) ∧
     (∃ b, marshalPcdata f.stackMapIndex = some b ∧ decodePcValue b pc = some 0) := by
   have hin2 : InInt32 (-2) := by unfold InInt32; omega
   have hin0 : InInt32 0 := by unfold InInt32; omega
@@ -110,9 +111,27 @@ theorem loadfunc_tables_cover_text (pcsp : List Pcvalue) (textSize pc : Nat) (a 
   have w2 : WellFormed [⟨textSize, 0⟩] := ⟨h0, h1, hin0, (by show (0 : Int) ≠ -1; decide), trivial⟩
   obtain ⟨b1, hb1, hd1⟩ := decode_marshal_wf _ w1 pc
   obtain ⟨b2, hb2, hd2⟩ := decode_marshal_wf _ w2 pc
-  refine ⟨⟨b1, hb1, ?_⟩, ⟨b2, hb2, ?_⟩⟩
+  have hu : loadFuncFacts.unsafeVal = -2 := by decide
+  have hs : loadFuncFacts.smiVal = 0 := by decide
+  refine ⟨⟨[⟨textSize, -2⟩], b1, by simp [buildLoadFunc, hu], hb1, ?_⟩, ⟨b2, by simpa [buildLoadFunc, hs] using hb2, ?_⟩⟩
   · rw [hd1]; simp [valueAt, hpc]
   · rw [hd2]; simp [valueAt, hpc]
+
+/-- without `NoPreempt` the table must be readable as "safe everywhere": either there is no table
+    (the runtime then reads -1), or - the state of the unchanged tree - the one-entry table with the
+    start value -1, which `pcvalue_first_entry_rule` shows the runtime cannot read. This theorem only
+    records which of the two the source has; it is an observation about the public loader API, not a
+    C10 obligation on sonic's own loaders (they always pass `NoPreempt`). -/
+theorem loadfunc_safe_table_cases (textSize pc : Nat) (htx : textSize < 4294967296) :
+    let f := buildLoadFunc loadFuncFacts false [] textSize none none
+    (f.unsafePoint = none ∧ readPcdata none pc = some (-1)) ∨
+    (f.unsafePoint = some [⟨textSize, -1⟩] ∧ marshalPcdata [⟨textSize, -1⟩] = some [0] ∧ readPcdata (some [0]) pc = none) := by
+  have hcases : loadFuncFacts.safeVal = none ∨ loadFuncFacts.safeVal = some (-1) := by decide
+  rcases hcases with h | h
+  · left; simp [buildLoadFunc, h, readPcdata]
+  · right
+    obtain ⟨hm, _, hd⟩ := pcvalue_first_entry_rule textSize htx
+    exact ⟨by simp [buildLoadFunc, h], hm, by simpa [readPcdata] using hd pc⟩
 
 /-! ## Part 2 - on the facts regenerated from the source -/
 
